@@ -86,6 +86,7 @@ func newRulesRunner(ctx *RunContext, buildContext *build.Context, state *engineS
 		runnerState = newRunnerState(state)
 	} else {
 		runnerState.Reset()
+		state.env.RefreshEvalEnv(runnerState.evalEnv)
 	}
 
 	importer := newGoImporter(state, goImporterConfig{
